@@ -186,7 +186,10 @@ class CDictContent:
         self.items = dict(items or {})
 
     def copy(self):
-        return CDictContent(self.items)
+        c = CDictContent(self.items)
+        if getattr(self, 'unknown', False):
+            c.unknown = True
+        return c
 
 
 class ObjContent:
